@@ -4,3 +4,6 @@ package webdoc
 
 // VerifSummary is only implemented in verification builds (build tag verif).
 func (doc *Document) VerifSummary() []interface{} { return nil }
+
+// VerifBlocks is only implemented in verification builds (build tag verif).
+func (td *TextDocument) VerifBlocks() []interface{} { return nil }
